@@ -491,6 +491,10 @@ protected:
 
         const size_type     index = doHash(key);
 
+        // Make room in the bucket now, so that nothing can fail
+        // once the new entry is in the list of entries.
+        m_buckets[index].reserve(m_buckets[index].size() + 1);
+
         if (m_freeEntries.empty())
         {
             m_freeEntries.push_back(Entry(allocate(1)));
